@@ -35,6 +35,7 @@ type halfConn struct {
 	limit      int  // >= 0: the connection breaks once this many bytes were delivered
 	limitReset bool
 	limitHit   bool
+	firstWriteT int64 // virtual time (ns since run start) of the first write, -1 if none
 	total     int    // bytes ever written
 	wrote     []byte // first recLimit bytes ever written (wire record)
 	delivered int
@@ -120,6 +121,9 @@ func (c *simConn) Write(p []byte) (int, error) {
 			if n > room {
 				n = room
 			}
+		}
+		if h.total == 0 && h.firstWriteT < 0 && h.sim != nil {
+			h.firstWriteT = int64(time.Since(h.sim.t0))
 		}
 		seg := append([]byte(nil), p[:n]...)
 		h.segs = append(h.segs, seg)
@@ -336,9 +340,9 @@ type connPair struct {
 func (s *Sim) dial(l *listener, tag string) (net.Conn, error) {
 	s.mu.Lock()
 	id := len(s.conns)
-	c2s := &halfConn{name: fmt.Sprintf("%s%d:c>s", tag, id), sim: s, sendbuf: s.prog.Cfg.SendBuf, limit: -1}
+	c2s := &halfConn{name: fmt.Sprintf("%s%d:c>s", tag, id), sim: s, sendbuf: s.prog.Cfg.SendBuf, limit: -1, firstWriteT: -1}
 	c2s.cond = sync.NewCond(&c2s.mu)
-	s2c := &halfConn{name: fmt.Sprintf("%s%d:s>c", tag, id), sim: s, sendbuf: s.prog.Cfg.SendBuf, limit: -1}
+	s2c := &halfConn{name: fmt.Sprintf("%s%d:s>c", tag, id), sim: s, sendbuf: s.prog.Cfg.SendBuf, limit: -1, firstWriteT: -1}
 	if wc := s.prog.Cfg.WireCut; wc != nil && tag == "http" && wc.Conn == id {
 		if wc.Dir == "c2s" {
 			c2s.limit, c2s.limitReset = wc.Offset, wc.Reset
